@@ -50,6 +50,8 @@ class NoHintsDefault:
         return 1
     def __repr__(self):
         return f"NoHintsDefault({self.parent!r}, {self.retries!r})"
+import collections as _collections
+CNT = _collections.namedtuple("CNT", ["x", "y"])  # a named tuple WITHOUT annotations: its members are unresolvable positions
 class NoHintsExc(Exception):  # hint-less classes on C bases without a text signature
     pass
 class NoHintsNS(types.SimpleNamespace):
@@ -91,7 +93,7 @@ ATOMS = [
     ("Final_T", "typing.Final[T]", "pass"), ("AliasT", "AliasT", "pass"), ("NewT", "NewT", "pass"), ("NewTB", "NewTB", "conv"), ("GenDC", "GenDC", "gendc"),
     # leaves (arguments are not member types) behind a qualifier
     ("Final_Callable1", "typing.Final[typing.Callable[[int], str]]", "pass"), ("Final_type_int", "typing.Final[type[int]]", "pass"),
-    ("NoHintsExc", "NoHintsExc", "build"), ("NoHintsNS", "NoHintsNS", "build"), ("NestedDC", "Outer.NDC", "conv"),
+    ("NoHintsExc", "NoHintsExc", "build"), ("NoHintsNS", "NoHintsNS", "build"), ("NestedDC", "Outer.NDC", "conv"), ("CNT", "CNT", "cnt"),
 ]
 E8 = ["int", "DC", "Any", "object", "list", "T", "Callable1", "Box_int"]
 UNARY = ("list", "set", "vtuple", "opt", "dict", "dvt")
@@ -130,6 +132,8 @@ def probe(t, ns, S):
             return DT.isoformat(), DT, DT, DT.isoformat()
         if name == "DC":
             return {"a": "1", "b": 2}, ns["DC"](1, "2"), ns["DC"](1, "2"), {"a": 1, "b": "2"}
+        if name == "CNT":
+            return {"x": S, "y": "1"}, ns["CNT"](S, "1"), ns["CNT"](S, "1"), {"x": S, "y": "1"}
         if name == "NestedDC":
             return {"a": "1"}, ns["Outer"].NDC(1), ns["Outer"].NDC(1), {"a": 1}
         if kind == "pass":
@@ -208,7 +212,12 @@ def terms(tier):
     else:
         lv1 = atoms + d1
         out += [("un", f, a) for f in UNARY for a in d1]
-        out += [("bin", f, a, b) for f in BINARY for a in lv1 for b in lv1 if (depth(a) == 1 or depth(b) == 1) and not (f == "union" and a == b)]
+        # depth 2, binary formers: (any depth-1 term, atom) in both orders, and (unary depth-1, unary depth-1); the pairs of two BINARY depth-1
+        # terms (10^7 annotations with 40 atoms) are left out
+        d1u = [t for t in d1 if t[0] == "un"]
+        out += [("bin", f, a, b) for f in BINARY for a in d1 for b in atoms]
+        out += [("bin", f, b, a) for f in BINARY for a in d1 for b in atoms]
+        out += [("bin", f, a, b) for f in BINARY for a in d1u for b in d1u if not (f == "union" and a == b)]
         # depth-3 spines over E8
         e8 = [("atom", AIDX[n]) for n in E8]
         s1 = [("un", f, a) for f in UNARY for a in e8] + [("bin", f, a, b) for f in BINARY for a in e8 for b in e8 if a != b]
@@ -228,7 +237,7 @@ def meta(tier):
         "rule": f"every annotation of the extended grammar over {len(ATOMS)} atoms (K4 + Any, object, bare builtin and typing containers, TypeVars free/bound/constrained, Callable forms, "
         "type[X], user generic bare/parameterised, hint-less class) and formers list/set/tuple[X,...]/Optional/dict[str,X]/two variadic tuples/tuple[X,Y]/Union[X,Y]: "
         + ("depth <= 1 complete; depth 2: every unary former over every depth-1 term, the binary formers over (every 3rd depth-1 term x every 2nd atom) in both argument orders, "
-           "and the complete diagonal tuple[F[a], a] / tuple[a, F[a]] (one atom at two depths) for every atom a and unary former F" if tier == "quick" else "ALL of depth <= 2 plus depth-3 spines over 8 atoms")
+           "and the complete diagonal tuple[F[a], a] / tuple[a, F[a]] (one atom at two depths) for every atom a and unary former F" if tier == "quick" else "depth <= 1 complete; depth 2: every unary former over every depth-1 term, the binary formers over (depth-1 term, atom) in both orders and over (unary depth-1, unary depth-1); plus depth-3 spines over 8 atoms")
         + "; (1) marshaller, unmarshaller, codec construct within the wall limit; (2) an opaque sentinel at every unresolvable position comes back by identity from both directions while "
         "resolvable siblings are converted; (3) building again, and after clearing caches, agrees on the probe; non-trivial = the pass-through clause was judged; distinct by (annotation, outcome)",
         "bounds": {"terms": len(terms(tier)), "atoms": [a[0] for a in ATOMS]},
